@@ -117,7 +117,12 @@ impl Variable {
                 Some(Self::Tuple(elements))
             }
             Type::Void => Some(Variable::Void),
-            Type::Multi(multi_type) => multi_type.iter().next().and_then(Self::of_type),
+            // the members are visited in an order that does not depend on the hash order of the set
+            Type::Multi(multi_type) => {
+                let mut members: Vec<&Type> = multi_type.iter().collect();
+                members.sort_by_cached_key(|member| member.canonical_key());
+                members.into_iter().find_map(Self::of_type)
+            }
             Type::Mut(arc) => Some(
                 Mut {
                     var_type: arc.as_ref().clone(),
